@@ -103,14 +103,16 @@ Definition diff_ok (c : case) (k : key) : bool :=
        | None => false
        end
    end) &&
-  (* directories: none appears; one disappears only as an emptied site folder or below a justified asset *)
+  (* directories: none appears, none turns into a file; one disappears only as an emptied site
+     folder or as (or below) a justified key *)
   match lookup s0 k, lookup s1 k with
   | Some Dir, Some Dir => true
   | _, Some Dir => false
-  | Some Dir, _ =>
+  | Some Dir, Some (File _ _) => false
+  | Some Dir, None =>
       if site_folderb k && forallb (fun en => negb (under k (fst en))) s1 &&
          existsb (fun r => do_certs (rr_opts r)) (c_runs c) then true
-      else existsb (fun r => do_certs (rr_opts r) && j_cert (rr_t1 r) (grace (rr_opts r)) s0 k) (c_runs c)
+      else existsb (fun r => justified (rr_opts r) (rr_t1 r) s0 k) (c_runs c)
   | _, _ => true
   end.
 
